@@ -3,6 +3,7 @@ package gt
 import (
 	"fmt"
 	"math"
+	"math/big"
 	"sort"
 	"strconv"
 	"strings"
@@ -145,17 +146,27 @@ func cmpFloat(a, b float64) int { // NaN sorts before everything, NaN == NaN (Go
 	return 0
 }
 
+// cmpIntFloatExact orders an integer and a float by their exact numeric values (NaN first).
+func cmpIntFloatExact(i int64, f float64) int {
+	switch {
+	case math.IsNaN(f):
+		return 1
+	case math.IsInf(f, 1):
+		return -1
+	case math.IsInf(f, -1):
+		return 1
+	}
+	return new(big.Float).SetInt64(i).Cmp(new(big.Float).SetFloat64(f))
+}
+
 // Cmp is the documented total order.
 func Cmp(a, b Val) int {
 	ra, rb := rank(a), rank(b)
 	if ra <= 2 && rb <= 2 && ra != rb {
-		var x, y float64
 		if ra == 1 {
-			x, y = float64(a.(int64)), b.(float64)
-		} else {
-			x, y = a.(float64), float64(b.(int64))
+			return cmpIntFloatExact(a.(int64), b.(float64))
 		}
-		return cmpFloat(x, y)
+		return -cmpIntFloatExact(b.(int64), a.(float64))
 	}
 	if ra != rb {
 		if ra < rb {
